@@ -7,6 +7,7 @@ from vf.verus_run import Source, Piece, UnitBuild, LostAnchor
 NAME = "subgroup_grouping"
 
 PRELUDE = r'''// Verus input of unit subgroup_grouping. Hand-written: stand-ins, wrapper signatures, contracts.
+#![feature(allocator_api)]
 use vstd::prelude::*;
 
 verus! {
@@ -81,6 +82,38 @@ pub open spec fn is_first_root(roots: &Roots, path: &Path, i: int) -> bool {
 pub open spec fn under_no_root(roots: &Roots, path: &Path) -> bool {
     forall|j: int| 0 <= j < roots.v@.len() ==> !#[trigger] spec_is_prefix_of(&roots.v@[j], path)
 }
+// `id_groups.into_values()` (indexmap: the values in insertion order) and the std functions of the final statements
+pub struct IntoValues<F> { pub ghost vals: Seq<Seq<F>> }
+impl<F> Iterator for IntoValues<F> {
+    type Item = FileSubGroup<F>;
+    #[verifier::external_body]
+    fn next(&mut self) -> Option<FileSubGroup<F>> { unimplemented!() }
+}
+impl<F> IdMap<F> {
+    #[verifier::external_body]
+    pub fn into_values(self) -> (r: IntoValues<F>) ensures r.vals == self.vals { unimplemented!() }
+}
+pub uninterp spec fn iter_view<T, I>(i: I) -> Seq<T>;
+pub uninterp spec fn values_of<F>(vals: Seq<Seq<F>>) -> Seq<FileSubGroup<F>>;   // some sub-groups with these files
+pub broadcast axiom fn values_of_view<F>(vals: Seq<Seq<F>>)
+    ensures groups_view(#[trigger] values_of::<F>(vals)) == vals;
+pub broadcast axiom fn into_values_view<F>(i: IntoValues<F>)
+    ensures #[trigger] iter_view::<FileSubGroup<F>, IntoValues<F>>(i) == values_of(i.vals);
+pub assume_specification<T, A: std::alloc::Allocator, I: IntoIterator<Item = T>> [<std::vec::Vec<T, A> as std::iter::Extend<T>>::extend] (v: &mut Vec<T, A>, i: I)
+    ensures final(v)@ == old(v)@ + iter_view::<T, I>(i);
+// the elements of s whose decision d[i] is true, in order
+pub open spec fn select<T>(s: Seq<T>, d: Seq<bool>) -> Seq<T>
+    decreases s.len()
+{
+    if s.len() == 0 || d.len() != s.len() { Seq::empty() }
+    else { select(s.drop_last(), d.drop_last()) + (if d.last() { seq![s.last()] } else { Seq::empty() }) }
+}
+// std: Vec::retain calls the predicate once per element, in order, and keeps exactly the elements it returned true for
+pub assume_specification<T, A: std::alloc::Allocator, P: FnMut(&T) -> bool> [std::vec::Vec::<T, A>::retain] (v: &mut Vec<T, A>, f: P)
+    requires forall|x: T| #[trigger] f.requires((&x,)),
+    ensures exists|d: Seq<bool>| d.len() == old(v)@.len() && (forall|i: int| 0 <= i < d.len() ==> f.ensures((&old(v)@[i],), #[trigger] d[i]))
+        && final(v)@ == select(old(v)@, d);
+
 pub open spec fn groups_view<F>(v: Seq<FileSubGroup<F>>) -> Seq<Seq<F>> { v.map_values(|g: FileSubGroup<F>| g.files@) }
 
 '''
@@ -146,25 +179,40 @@ def build():
         ub.spec("\n}\n")
     ub.optional("loop body of FileSubGroup::group", step, prefixes=["C06.group.file_", "C06.group.with_match_links", "C06.group.root_test"])
 
-    def retain_pred():
-        e = src.call_arg(fn, "prefix_groups.retain", 0)
+    def finish():
+        # the statements after the loop: from `prefix_groups.extend(` to the end of the function
+        tail = src.tail_after(fn, src.block_of(fn, "for f in files ").text)
+        clo = src.call_arg(fn, "prefix_groups.retain", 0, strip_closure_head=None)
+        m = re.match(r"\|\s*(\w+)\s*\|\s*(.+)$", clo.text, re.S)
+        if not m or not (tail.start <= clo.start and clo.end <= tail.end):
+            raise LostAnchor("no `prefix_groups.retain(|x| EXPR)` after the loop of FileSubGroup::group")
+        annotated = ("|%s: &FileSubGroup<F>| -> (verif_b: bool)\n"
+                     "            ensures verif_b == (%s.files@.len() > 0) // @ob C06.group.only_empty_sub_groups_are_removed\n"
+                     "        { %s }" % (m.group(1), m.group(1), m.group(2)))
         ub.spec('''
-// ---- expression slice: the predicate of the final `prefix_groups.retain(..)` (true = the sub-group stays)
-fn group_retain_predicate<F>(sg: &FileSubGroup<F>) -> (r: bool)
-    ensures r == (sg.files@.len() > 0), // @ob C06.group.only_empty_sub_groups_are_removed
+// ---- the statements after the loop: the sub-groups by file id follow the root / single sub-groups in first-seen
+// order, and exactly the empty sub-groups (roots without a file) are removed, nothing is reordered
+fn group_finish<F>(prefix_groups: Vec<FileSubGroup<F>>, id_groups: IdMap<F>) -> (r: Vec<FileSubGroup<F>>)
+    ensures ({ let all = prefix_groups@ + values_of(id_groups.vals);
+               exists|d: Seq<bool>| d.len() == all.len() && (forall|i: int| 0 <= i < d.len() ==> #[trigger] d[i] == (all[i].files@.len() > 0))
+                   && r@ == select(all, d) }), // @ob C06.group.result_is_root_groups_then_id_groups_in_order_without_the_empty_ones
 {
-    ''')
-        ub.piece(Piece(e))
+    broadcast use into_values_view;
+    let mut prefix_groups = prefix_groups;
+''')
+        ub.piece(Piece(tail, renames=((clo.text, annotated),)))
         ub.spec("\n}\n")
-    ub.optional("final retain of FileSubGroup::group", retain_pred, prefixes=["C06.group.only_empty"])
+    ub.optional("statements after the loop of FileSubGroup::group", finish, prefixes=["C06.group.only_empty", "C06.group.result_is"])
     ub.spec("\n} // verus!\nfn main() {}\n")
     ub.functions = ["group::FileSubGroup::empty", "group::FileSubGroup::single", "group::FileSubGroup::push",
-                    "group::FileSubGroup::group [slices: whole body of the `for f in files` loop; predicate of the final retain]"]
+                    "group::FileSubGroup::group [slices: whole body of the `for f in files` loop; the statements after the loop]"]
     ub.assumptions = [
         "Path::is_prefix_of is an uninterpreted relation (its component-wise meaning is not covered)",
         "std AsRef<Path>/AsRef<FileId> are replaced by a stand-in trait of the same name with a spec function (the path / id of the file)",
         "`roots.iter().position(p)` (std) returns the index of the first element satisfying p; `IndexMap::entry(k).or_insert(v)` (indexmap) returns the value stored under k, inserting v at the end if absent: both are stand-ins with these contracts",
-        "the loop itself (every file of the input is passed through the body once, in input order), the initial `prefix_groups` (one empty sub-group per root), the final `extend(id_groups.into_values())` and Vec::retain are NOT covered",
+        "the loop itself (every file of the input is passed through the body once, in input order), and the initial `prefix_groups` (one empty sub-group per root) are NOT covered",
+        "std Vec::extend appends the iterator's items in order; Vec::retain keeps exactly the elements the predicate returned true for, in order; IndexMap::into_values yields the values in insertion order (assumed specifications)",
+        "the two closures (`.position(|r| ..)`, `.retain(|sg| ..)`) receive a parameter type, a named result and the obligation as post-condition (Verus knows nothing about a closure without one); their bodies are the source text",
         "FileId stand-in has the two fields of file::FileId (device: u64, inode: u128) and derived equality",
     ]
     return ub
